@@ -205,7 +205,9 @@ class C15(Prop):
         # round 4
         "compaction_pairs_exact", "compaction_entry_points", "sequenceSubset_markup_exact",
         "ct2wuss_total", "wuss_ct_wuss_ct_total", "removeBroken_total",
-        "ct2wuss_ok_iff", "ct2wuss_ok_of_few_pk", "ct2wuss_fails_needs_27", "wuss_few_pk_roundtrip")]
+        "ct2wuss_ok_iff", "ct2wuss_ok_of_few_pk", "ct2wuss_fails_needs_27", "wuss_few_pk_roundtrip",
+        "markFragments_spec", "reverseComplement_spec", "reverseComplement_rejects", "addComment_addGF_spec",
+        "simple_pk_roundtrip", "ct2simplewuss_total", "ct2simplewuss_ok_of_few_pk", "wuss_ct_simplewuss_ct_total")]
     claimed = True
     technique = ("Lean 4 proof about an executable hand model of esl_msa.c / esl_wuss.c (in-place compaction loop = filter-by-mask on every aligned field, well-formedness invariants, "
                  "tag-table rebuild of SequenceSubset, mode-conversion and reverse-complement identities over alphabet tables regenerated from the tree, 27-stack WUSS reader = 27 Dyck recognisers, "
@@ -548,6 +550,24 @@ class C15(Prop):
             elif r < 0.72: ops.append("wuss2kh ss=%s inplace=%d" % (hx(s), rng.randrange(2)))
             elif r < 0.76: ops.append("kh2wuss ss=%s inplace=%d" % (hx(s.replace("<", "\0").replace(">", "<").replace("\0", ">")), rng.randrange(2)))
             elif r < 0.9: ops.append("rbbss ss=%s mask=%s" % (hx(s), self.rand_mask(rng, len(s)) or "-"))
+            elif r < 0.94:
+                # a random symmetric pair table, not derived from any string: arbitrary crossings, up to > 26 pseudoknotted pairs
+                m = rng.choice([0, 1, 2, 6, 12, 40, rng.randrange(0, 80)])
+                k = rng.choice([0, 1, 2, 3, m // 4, m // 2])
+                pos = list(range(1, m + 1)); rng.shuffle(pos)
+                ct = [0] * (m + 1)
+                for t in range(min(k, m // 2)):
+                    a, b = pos[2 * t], pos[2 * t + 1]; ct[a] = b; ct[b] = a
+                if rng.random() < 0.3 and m >= 6:      # helices: runs of stacked pairs crossing each other
+                    ct = [0] * (m + 1); free = list(range(1, m + 1))
+                    for _h in range(rng.randrange(1, 5)):
+                        if len(free) < 4: break
+                        a = rng.choice(free[:len(free) // 2]); b = rng.choice(free[len(free) // 2:])
+                        while a < b and ct[a] == 0 and ct[b] == 0 and rng.random() < 0.8:
+                            ct[a] = b; ct[b] = a; a += 1; b -= 1
+                            if rng.random() < 0.15: a += 1      # a bulge
+                        free = [x for x in free if ct[x] == 0]
+                ops.append("%s ct=%s" % (rng.choice(["ct2wuss", "ct2simple"]), ",".join(map(str, ct[1:])) or "-"))
             else:
                 p = wuss_pairs(s)
                 if p is None: ops.append("wuss2ct ss=" + hx(s)); continue
@@ -731,6 +751,20 @@ class C15(Prop):
             if parts[0] != "ok": return Failure("monitor", "RemoveBrokenBasepairsFromSS failed on balanced SS %r: %s" % (ss, l[:60]))
             got = wuss_pairs(unhx(parts[-1][3:]))
             if got != want: return Failure("monitor", "after RemoveBrokenBasepairsFromSS the pairs are not the original pairs with both partners kept (ss %r mask %s)" % (ss, mask))
+        elif name in ("ct2wuss", "ct2simple"):
+            # theorems ct2wuss_total / ct2simplewuss_total / *_ok_of_few_pk restated on the implementation's own output
+            v = kv.get("ct", "-"); ct = [0] + ([int(x) for x in v.split(",")] if v != "-" else [])
+            n = len(ct) - 1
+            sym = all((c == 0) or (1 <= c <= n and c != i and ct[c] == i) for i, c in enumerate(ct))
+            if not sym: return None
+            want = set((i - 1, ct[i] - 1) for i in range(1, n + 1) if ct[i] > i)
+            parts = l.split()
+            if parts[0] == "ok":
+                got = wuss_pairs(unhx(parts[-1][3:]) if parts[-1].startswith("ss=") else b"")
+                if got != want: return Failure("monitor", "%s: the string written does not spell the pair table %s" % (name, v[:120]))
+                if len(unhx(parts[-1][3:]) or b"") != n: return Failure("monitor", "%s: wrong length" % name)
+            elif parts[0:2] == ["einval", "exception"] and self.many_pk_pairs(want): return None
+            else: return Failure("monitor", "%s fails (%s) on a symmetric pair table with fewer than 27 pseudoknotted pairs: %s" % (name, " ".join(parts[:2]), v[:120]))
         elif name == "wussrev":
             if l.startswith("ok ss="):
                 r = unhx(l[6:]); a, b = wuss_pairs(ss), wuss_pairs(r); n = len(ss)
